@@ -97,8 +97,8 @@ Definition blur (p : Z) (l : list qent) : list qent :=
                   match qe_en e with Some true => e | _ => qset_en None e end
                 else e) l.
 
-Definition CLS_PUB_PRESENTATION : N := 1%N.
-Definition CLS_TOPIC_CREATE : N := 2%N.
+(* classes 1 (publisher presentation mutable) and 2 (create_topic accepts an inconsistent QoS) were repaired by
+   5256dfd and 3e9f0b1: such behaviour is an unexplained violation again *)
 
 Definition ent_ok (b : q37) (e : qent) : bool :=
   qe_live e && match nthz (b_P b) (qe_part e) with Some p => qe_live p | None => false end.
@@ -153,7 +153,7 @@ Definition c37_step (b : q37) (o : wop) (r : ret) : q37 * list N :=
       | None => (b, [])
       | Some pe =>
           let q' := option_map (restrict KTopic) q in
-          let v := if qe_live pe then chk_create_e KTopic q' r CLS_TOPIC_CREATE else [] in
+          let v := if qe_live pe then chk_create_e KTopic q' r 0%N else [] in
           if is_handle r then
             (setB_T b (b_T b ++ [mkQE true (child_en pe) p (-1) name
                                       (QE (match q' with Some x => x | None => default_eqos KTopic end))]), v)
@@ -227,7 +227,7 @@ Definition c37_step (b : q37) (o : wop) (r : ret) : q37 * list N :=
           let changed := match qe_q e with QG cur => negb (spec_pres_same cur q') | _ => false end in
           let v := if ent_ok b e then
                      chk_set (qe_en e) false false changed r
-                             (match sd with SPub => CLS_PUB_PRESENTATION | SSub => 0%N end)
+                             0%N
                    else [] in
           (if is_unit r then setB_G sd b (updz (b_G sd b) i (qset_q (QG q'))) else b, v)
       end
